@@ -162,17 +162,18 @@ pub fn gen_case(t: &mut Tape, feature_unimock: bool) -> Case {
     if module {
         let deps_pool: Vec<Deps> = if no_deps { vec![Deps::NoDeps] } else if mock_active { vec![Deps::RefGeneric, Deps::RefImpl] } else { vec![Deps::RefGeneric, Deps::RefImpl, Deps::RefImpl, Deps::ValGeneric, Deps::ValImpl] };
         let n = t.range(1, 5);
+        let names = prog::member_names(t, n);
         let mut fns: Vec<FnSpec> = vec![];
         let mut gen_used = false;
         // deliberately repeated signatures: sometimes clone the previous fn's shape
         for i in 0..n {
             let mut f = if i > 0 && t.chance(1, 2) {
                 let mut c = fns[i - 1].clone();
-                c.name = format!("f{i}");
+                c.name = names[i].clone();
                 c.tag = format!("F{i}");
                 c
             } else {
-                gen_fn_spec(t, &format!("f{i}"), &format!("F{i}"), &deps_pool, mock_active, !gen_used && !mock_active)
+                gen_fn_spec(t, &names[i], &format!("F{i}"), &deps_pool, mock_active, !gen_used && !mock_active)
             };
             if f.has_gen {
                 if gen_used {
